@@ -171,6 +171,10 @@ where
         &mut self,
         keep_alive: bool,
     ) -> Result<(VarInt, Cursor<Vec<u8>>), Error> {
+        // a previous send may have been dropped halfway, the client must not wait for the rest of
+        // that packet until the next one is due
+        self.flush_queued().await?;
+
         // wait for the next packet, send keep-alive packets as necessary. Received bytes are only
         // consumed once the packet is complete, such that this future may be dropped at any point.
         let (length, prefix_len) = loop {
@@ -285,6 +289,18 @@ where
         // queue the final buffer and send everything queued into the stream. A previous send may
         // have been dropped halfway, its remaining bytes have to be written first.
         self.write_buffer.extend_from_slice(&final_buffer);
+        self.flush_queued().await?;
+
+        // track metrics
+        let packet_size = u64::try_from(final_buffer.len()).expect("usize always fits into u64");
+        metrics::packet_size::record_clientbound(packet_size);
+
+        Ok(())
+    }
+
+    /// Writes everything that is still queued. It may be dropped at any point, the bytes that were
+    /// not written yet stay queued.
+    async fn flush_queued(&mut self) -> Result<(), Error> {
         while !self.write_buffer.is_empty() {
             let written = self
                 .stream
@@ -296,11 +312,6 @@ where
             }
             self.write_buffer.drain(..written);
         }
-
-        // track metrics
-        let packet_size = u64::try_from(final_buffer.len()).expect("usize always fits into u64");
-        metrics::packet_size::record_clientbound(packet_size);
-
         Ok(())
     }
 
